@@ -240,6 +240,7 @@ func execute(s *rt.Spec, scn *rt.Scenario, prop string) *execResult {
 			sc = clean(scn) // an unfaulted sibling directive running at the same time
 		}
 		env := rt.NewEnv(i, s, sc)
+		env.Race = prop == "C12"
 		run := &rt.Run{Env: env, Mode: prop}
 		res.runs[i] = run
 		ctx, cancel := context.WithCancel(rt.WithEnv(context.Background(), env))
